@@ -4,18 +4,25 @@ from .. import gen as G
 from .common import TRUSTED, ASSUMPTIONS, default_nontrivial, LEVEL_NOTE, TECHNIQUE
 
 LEVEL = "proof"
-THEOREMS = ['C14_closed_form', 'C14_wf', 'C14_base_rate', 'C14_sum', 'C14_projection', 'C14_case1', 'C14_dogmatic', 'C14_nonneg', 'C14_swap_x', 'C14_swap_y', 'C14_tie']
+THEOREMS = ['C14_closed_form', 'C14_wf', 'C14_base_rate', 'C14_sum', 'C14_projection', 'C14_case1', 'C14_dogmatic', 'C14_nonneg', 'C14_swap_x', 'C14_swap_y', 'C14_tie', 'C14_K_eq_nine_branch', 'C14_eq_unnormalised']
 RULE = ("bdeduce / bdeduce_sym on the open domain 0<P(x)<1, 0<ax<1, 0<ay<1: 1/8 grid sample (exhaustive over antecedents x a "
-        "sample of conditionals), random dyadic grids up to 1/64, dogmatic antecedents, conditionals whose beliefs/disbeliefs differ by 2^-10..2^-45, consequent base rates 2^-k and 1-2^-k (k up to 50), arbitrary floats; f32+f64; all nine "
-        "case branches counted from the model's branch tag; results with an EXACT zero mass (antecedent and conditionals with b = 0 or d = 0, "
+        "sample of conditionals), random dyadic grids up to 1/64, dogmatic antecedents, conditionals whose beliefs/disbeliefs differ by 2^-10..2^-45, consequent base rates 2^-k and 1-2^-k (k up to 50), arbitrary floats; "
+        "a DECIMAL-GRID stream (4000 per precision in the quick tier: antecedent vacuous / b = 0 / d = 0 / general with masses on the 0.1 and 0.01 "
+        "grids, base rates and ay from {0.001, 0.01, 0.1, 0.3, 0.5, 0.9, 0.99, 0.999} and the 0.1 grid, conditionals on the 0.1 grid with and "
+        "without zero components, absolute conditionals) and a SMALL-RATE stream (2000 per precision: rates log-uniform down to 1e-8 or that "
+        "close to 1, conditionals that differ by 10^-k in belief and/or disbelief); f32+f64; the five "
+        "tags I, II.A, II.B, III.A, III.B (case and active bound of min(ka,kb)) counted from the model's tag; results with an EXACT zero mass (antecedent and conditionals with b = 0 or d = 0, "
         "absolute conditionals: the computed mass is 0 or a rounding residue on either side of 0, which must be accepted); variant `p` "
-        "(x.projection() and the result's projection() as answered by the method, total probability on those); a panic on these exactly "
-        "well-formed operands is reported here (no hand-over to C19). non-trivial = implementation returned a value")
+        "(x.projection() and the result's projection() as answered by the method, total probability on those); a panic on exactly "
+        "well-formed operands is reported here (no hand-over to C19); on operands that are well-formed within the constructors' tolerance "
+        "(4 eps: plain decimals) the clauses value / well-formed / base rate / total probability / symmetry are checked within their "
+        "tolerances and a rejection by rounding residue is C19's. non-trivial = implementation returned a value")
 EXHAUSTIVE = {}
 nontrivial = default_nontrivial
 LEVEL_TEXT = ("Theorems over the exact model on the open domain: sum/projection identities, base rate, label symmetries and the "
               "dogmatic mixture; non-negativity per case. Tied to BOpinion::deduce by the correspondence check with the predicates "
-              "evaluated on the implementation's outputs; all nine branches are exercised.")
+              "evaluated on the implementation's outputs; Case I and both bounds of Case II / III are exercised; the correction term equals the one "
+              "of the nine-branch operator it replaced (C14_K_eq_nine_branch).")
 
 
 def _case(rng, den):
@@ -53,10 +60,103 @@ def _zero_case(rng, den):
     return x + c0 + c1 + [Fr(rng.randint(1, den - 1), den)]
 
 
+# ---- plain decimal operands (not dyadic): every mass, rate and conditional is a decimal fraction rounded to the format, so the
+# operands are well-formed within the constructors' tolerance only (0.1 + 0.2 + 0.7 is not 1 in binary) -- or exactly, when
+# the decimals happen to be dyadic (0, 0.5, 1) -- and every product / difference in the operator is rounded
+DEC_RATES = [Fr(1, 1000), Fr(1, 100), Fr(1, 10), Fr(3, 10), Fr(1, 2), Fr(9, 10), Fr(99, 100), Fr(999, 1000)]
+
+
+def _dec_rate(rng):
+    return rng.choice(DEC_RATES) if rng.random() < 0.6 else Fr(rng.randint(1, 9), 10)
+
+
+def _dec_tri(rng, den, kind):
+    """(b, d, u) on the grid 1/den; kind: vac | b0 | d0 | abs | any"""
+    if kind == "vac":
+        return [Fr(0), Fr(0), Fr(1)]
+    if kind == "abs":
+        return rng.choice([[Fr(1), Fr(0), Fr(0)], [Fr(0), Fr(1), Fr(0)]])
+    if kind in ("b0", "d0"):
+        k = rng.randint(0, den)
+        t = [Fr(0), Fr(k, den), Fr(den - k, den)]
+        return t if kind == "b0" else [t[1], t[0], t[2]]
+    return [Fr(v, den) for v in G.composition(rng, den, 3)]
+
+
+def _decimal_case(rng):
+    """antecedent vacuous / b = 0 / d = 0 / general with masses on the 0.1 or 0.01 grid, base rates and ay from DEC_RATES and
+    the 0.1 grid, conditionals on the 0.1 grid with and without zero components, absolute conditionals"""
+    while True:
+        den = 10 if rng.random() < 0.75 else 100
+        x = _dec_tri(rng, den, rng.choice(["vac", "vac", "vac", "b0", "d0", "any", "any"])) + [_dec_rate(rng)]
+        px = x[0] + x[3] * x[2]
+        if 0 < px < 1:
+            break
+    # one conditional with a zero (or absolute) component more often than not: the exact belief or disbelief of the result is
+    # then 0 for a vacuous antecedent, and the computed one a residue of either sign
+    kinds = ["abs", "b0", "d0", "b0", "d0", "any"]
+    c0 = _dec_tri(rng, 10, rng.choice(kinds))
+    c1 = _dec_tri(rng, 10, rng.choice(["abs", "b0", "d0", "any", "any", "any", "any"]))
+    if rng.random() < 0.5:
+        c0, c1 = c1, c0
+    ay = rng.choice(DEC_RATES) if rng.random() < 0.8 else Fr(rng.randint(1, 9), 10)
+    return x + c0 + c1 + [ay]
+
+
+def _small_rate_case(rng, fmt):
+    """base rates log-uniform down to 1e-8 (or that close to 1), conditionals that differ by 10^-k in belief and / or
+    disbelief (near ties, on either side), masses on the decimal grid or arbitrary"""
+    def rate():
+        z = rng.random()
+        r = 10.0 ** (-rng.uniform(0.3, 8.0))
+        return r if z < 0.6 else 1.0 - r if z < 0.75 else float(_dec_rate(rng))
+    while True:
+        if rng.random() < 0.6:
+            x = [float(v) for v in _dec_tri(rng, 10, rng.choice(["vac", "b0", "d0", "any", "any"]))]
+        else:
+            x = G.float_bop(rng, fmt)[:3]
+        x = x + [rate()]
+        px = x[0] + x[3] * x[2]
+        if 0 < px < 1 and 0 < x[3] < 1:
+            break
+    c1 = [float(v) for v in _dec_tri(rng, 10, rng.choice(["b0", "d0", "any", "any", "any"]))]
+    c0 = list(c1)
+    kmax = 12 if fmt == "f64" else 6
+    for i in rng.choice([[0], [1], [0, 1], [0, 1]]):
+        dl = rng.choice([1, -1]) * 10.0 ** (-rng.randint(1, kmax))
+        j = 2 if rng.random() < 0.7 else 1 - i                 # taken from / given to the uncertainty or the other mass
+        if 0 <= c0[i] + dl <= 1 and 0 <= c0[j] - dl <= 1:
+            c0[i] += dl
+            c0[j] -= dl
+    if rng.random() < 0.5:
+        c0, c1 = c1, c0
+    ay = rate()
+    return x + c0 + c1 + [ay]
+
+
+def decimal_streams(rng, fmt, n_dec, n_small):
+    """the two streams as case lines (shared with C19)"""
+    out = []
+    for _ in range(n_dec):
+        sc = _decimal_case(rng)
+        if rng.random() < 0.7:
+            out.append(G.line("bdeduce", fmt, rng.choice(["B.o", "B.o", "B.o.p"]), [], sc))
+        else:
+            out.append(G.line("bdeduce_sym", fmt, "B.o", [rng.randint(0, 1)], sc))
+    for _ in range(n_small):
+        sc = _small_rate_case(rng, fmt)
+        if rng.random() < 0.7:
+            out.append(G.line("bdeduce", fmt, "B.o", [], sc))
+        else:
+            out.append(G.line("bdeduce_sym", fmt, "B.o", [rng.randint(0, 1)], sc))
+    return out
+
+
 def cases(rng, tier):
     out = []
     for fmt in ("f64", "f32"):
         N = 1500 if tier == "quick" else 60000
+        out += decimal_streams(rng, fmt, 4000 if tier == "quick" else 60000, 2000 if tier == "quick" else 30000)
         for _ in range(N):
             den = rng.choice([8, 8, 16, 64])
             sc = _case(rng, den)
